@@ -16,10 +16,10 @@ SPEC = {
                      "WriterOnce, named temp files) and coq/Model/Buffer.v (buffer/buffer.go ServeHTTP, copyRequest on a heap "
                      "of URL/header objects, bufferWriter, retry predicates of buffer/threshold.go); tie = differential replay "
                      "of every generated exchange (status, headers, body checksum, invocation count, per-invocation method/URL/"
-                     "headers/ContentLength/TransferEncoding/bytes read, temp files left)",
+                     "headers/ContentLength/TransferEncoding/bytes read, named temp files at every handler return and after the exchange)",
                      "net/http server and client (framing, HEAD/204/304 body suppression), os.TempDir/TMPDIR"],
     "assumptions": ["the handler is a sequential script; it does not keep the request or the ResponseWriter after returning",
-                    "I/O errors of the temp directory and client disconnects are not modelled",
+                    "I/O errors of the temp directory are not modelled; a client that goes away is modelled as a ResponseWriter that accepts only the first n body bytes (framing_cut), a disconnect while the request body is read is not",
                     "vulcand/predicate + go/parser precedence is exercised through the printer round-trip, not proved",
                     "locations of the original request's URL/header objects are valid (valid_call)"],
 }
